@@ -3,8 +3,9 @@ import PraatModel.Lemmas.Shrink
 /-!
 # C07 — eraseRegion blanks exactly the region and shrinks time by exactly its length
 
-Exact arithmetic (`Int` timestamps of any size, entry lists of any length).  `NoClose` is the explicit
-hypothesis under which the code's tolerant `Interval.__eq__` (used by `deleteEntry`) coincides with equality.
+Exact arithmetic (`Int` timestamps of any size, entry lists of any length).  No separation hypothesis: the
+entries that `eraseRegion` deletes are members of the tier, and `deleteEntry` (exact match first) removes exactly
+the member it is given, however close other entries are (`deleteIvs_of_mem`).
 The floating-point clause of the property is carried by layer R at the end of this file plus the bit-exact
 correspondence run.
 -/
@@ -54,10 +55,10 @@ theorem erase_error_mode (t : ITier Int) (hwf : t.WF) (a b : Int) (hab : a < b) 
 
 /-- **no shrinking** (truncate / categorical): the call succeeds; the result is well-formed, keeps name and span,
 and its entries are exactly the pieces of the original entries that lie outside the region -/
-theorem erase_noshrink (t : ITier Int) (hwf : t.WF) (hn : NoClose t.es) (a b : Int) (hab : a < b)
+theorem erase_noshrink (t : ITier Int) (hwf : t.WF) (a b : Int) (hab : a < b)
     (mode : EraseMode) (hm : mode ≠ .error) :
     ∃ t', t.eraseRegion a b mode false = .ok t' ∧ IsErased a b mode t t' := by
-  obtain ⟨t', h1, h2⟩ := eraseCore_spec t hwf hn a b hab mode hm
+  obtain ⟨t', h1, h2⟩ := eraseCore_spec t hwf a b hab mode hm
   refine ⟨t', ?_, h2⟩
   rw [erase_unfold t hwf a b hab mode false, h1]
   rfl
@@ -97,18 +98,18 @@ theorem isErased_labelAt (t t' : ITier Int) (hwf : t.WF) (a b : Int) (hab : a < 
         exact ⟨iv, (h.mem _).2 ⟨iv, hiv, (mem_pieces_of_not_ov ho').2 rfl⟩, h1, h2, h3⟩
 
 /-- **truncate, no shrinking**: nothing is labelled inside `[a, b)`, everything outside is unchanged -/
-theorem erase_noshrink_labelAt (t : ITier Int) (hwf : t.WF) (hn : NoClose t.es) (a b : Int) (hab : a < b)
+theorem erase_noshrink_labelAt (t : ITier Int) (hwf : t.WF) (a b : Int) (hab : a < b)
     (t' : ITier Int) (h : t.eraseRegion a b .truncate false = .ok t') (x : Int) :
     labelAt t'.es x = if a ≤ x ∧ x < b then none else labelAt t.es x := by
-  obtain ⟨t'', h1, h2⟩ := erase_noshrink t hwf hn a b hab .truncate (by decide)
+  obtain ⟨t'', h1, h2⟩ := erase_noshrink t hwf a b hab .truncate (by decide)
   rw [h] at h1; cases h1
   exact isErased_labelAt t t' hwf a b hab h2 x
 
 /-- **categorical**: every interval overlapping the region disappears entirely, all others stay -/
-theorem erase_categorical_entries (t : ITier Int) (hwf : t.WF) (hn : NoClose t.es) (a b : Int) (hab : a < b)
+theorem erase_categorical_entries (t : ITier Int) (hwf : t.WF) (a b : Int) (hab : a < b)
     (t' : ITier Int) (h : t.eraseRegion a b .categorical false = .ok t') (x : Iv Int) :
     x ∈ t'.es ↔ x ∈ t.es ∧ ¬ (x.s < b ∧ a < x.e) := by
-  obtain ⟨t'', h1, h2⟩ := erase_noshrink t hwf hn a b hab .categorical (by decide)
+  obtain ⟨t'', h1, h2⟩ := erase_noshrink t hwf a b hab .categorical (by decide)
   rw [h] at h1; cases h1
   rw [h2.mem]
   constructor
@@ -131,13 +132,13 @@ theorem isErased_clear (t t' : ITier Int) (hwf : t.WF) (a b : Int) (hab : a < b)
 /-- **shrinking** (truncate / categorical, region inside the span): the call succeeds; the result is well-formed;
 the span's end decreases by exactly `b - a`; with `u` the no-shrink result, every time before `a` sees `u`
 and every later time sees `u` exactly `b - a` later -/
-theorem erase_shrink (t : ITier Int) (hwf : t.WF) (hn : NoClose t.es) (a b : Int) (hab : a < b)
+theorem erase_shrink (t : ITier Int) (hwf : t.WF) (a b : Int) (hab : a < b)
     (hlo : t.lo ≤ a) (hhi : b ≤ t.hi) (mode : EraseMode) (hm : mode ≠ .error) :
     ∃ u t', IsErased a b mode t u ∧ t.eraseRegion a b mode true = .ok t' ∧ t'.WF ∧ t'.name = t.name ∧
       t'.lo = t.lo ∧ t'.hi = t.hi - (b - a) ∧
       t'.es = rejoin a (u.es.map (shOne a b)) ∧
       ∀ x, labelAt t'.es x = if x < a then labelAt u.es x else labelAt u.es (x + (b - a)) := by
-  obtain ⟨u, h1, h2⟩ := eraseCore_spec t hwf hn a b hab mode hm
+  obtain ⟨u, h1, h2⟩ := eraseCore_spec t hwf a b hab mode hm
   have hclear := isErased_clear t u hwf a b hab mode h2
   have hw := map_shOne_wf a b hab u.es h2.wf.pos h2.wf.disj h2.wf.stripped hclear
   have hr := rejoin_wf a _ hw.1 hw.2.1 hw.2.2
@@ -209,10 +210,10 @@ theorem erase_shrink (t : ITier Int) (hwf : t.WF) (hn : NoClose t.es) (a b : Int
 
 /-- **truncate with shrinking**, stated on the original tier: times before `a` are unchanged, every later time `x`
 carries what the tier carried at `x + (b - a)` -/
-theorem erase_shrink_labelAt (t : ITier Int) (hwf : t.WF) (hn : NoClose t.es) (a b : Int) (hab : a < b)
+theorem erase_shrink_labelAt (t : ITier Int) (hwf : t.WF) (a b : Int) (hab : a < b)
     (hlo : t.lo ≤ a) (hhi : b ≤ t.hi) (t' : ITier Int) (h : t.eraseRegion a b .truncate true = .ok t') (x : Int) :
     labelAt t'.es x = if x < a then labelAt t.es x else labelAt t.es (x + (b - a)) := by
-  obtain ⟨u, t'', hu, h1, _, _, _, _, _, hl⟩ := erase_shrink t hwf hn a b hab hlo hhi .truncate (by decide)
+  obtain ⟨u, t'', hu, h1, _, _, _, _, _, hl⟩ := erase_shrink t hwf a b hab hlo hhi .truncate (by decide)
   rw [h] at h1; cases h1
   rw [hl x]
   by_cases hx : x < a
@@ -224,11 +225,11 @@ theorem erase_shrink_labelAt (t : ITier Int) (hwf : t.WF) (hn : NoClose t.es) (a
     simp [show ¬ (a ≤ x + (b - a) ∧ x + (b - a) < b) by omega]
 
 /-- **straddler**: an interval with `s < a` and `b < e` comes out as the one interval `⟨s, e - (b - a), l⟩` -/
-theorem erase_shrink_straddler (t : ITier Int) (hwf : t.WF) (hn : NoClose t.es) (a b : Int) (hab : a < b)
+theorem erase_shrink_straddler (t : ITier Int) (hwf : t.WF) (a b : Int) (hab : a < b)
     (hlo : t.lo ≤ a) (hhi : b ≤ t.hi) (t' : ITier Int) (h : t.eraseRegion a b .truncate true = .ok t')
     (iv : Iv Int) (hiv : iv ∈ t.es) (hs : iv.s < a) (he : b < iv.e) :
     (⟨iv.s, iv.e - (b - a), iv.l⟩ : Iv Int) ∈ t'.es := by
-  obtain ⟨u, t'', hu, h1, _, _, _, _, hes, _⟩ := erase_shrink t hwf hn a b hab hlo hhi .truncate (by decide)
+  obtain ⟨u, t'', hu, h1, _, _, _, _, hes, _⟩ := erase_shrink t hwf a b hab hlo hhi .truncate (by decide)
   rw [h] at h1; cases h1
   have hclear := isErased_clear t u hwf a b hab .truncate hu
   have hw := map_shOne_wf a b hab u.es hu.wf.pos hu.wf.disj hu.wf.stripped hclear
@@ -299,11 +300,27 @@ def exTier : ITier Int := ⟨"T", [⟨10, 30, "a"⟩, ⟨30, 60, "b"⟩, ⟨80, 
 theorem exTier_wf : exTier.WF := by
   refine ⟨?_, ?_, ?_, ?_, ?_, ?_⟩ <;> simp [exTier, Pos, Disj, Stripped] <;> decide
 
-theorem exTier_noclose : NoClose exTier.es := by
-  intro x hx y hy hxy
-  simp only [exTier, List.mem_cons, List.mem_nil_iff, or_false] at hx hy
-  rcases hx with rfl | rfl | rfl <;> rcases hy with rfl | rfl | rfl <;>
-    first | rfl | (exfalso; revert hxy; simp [ivEq, Tm.close9])
+/-- a well-formed tier with two distinct entries that are equal under the tolerant `Interval.__eq__` (such tiers were
+excluded by the former separation hypothesis `NoClose`): the theorems of this file apply to it, and erasing the
+second of the two close entries removes that one, not the first -/
+def closeTier : ITier Int :=
+  ⟨"T", [⟨0, 10000000000, "a"⟩, ⟨10000000000, 10000000005, "x"⟩, ⟨10000000005, 10000000010, "x"⟩,
+         ⟨10000000010, 20000000000, "b"⟩], 0, 20000000000⟩
+
+theorem closeTier_wf : closeTier.WF := by
+  refine ⟨?_, ?_, ?_, ?_, ?_, ?_⟩ <;> simp [closeTier, Pos, Disj, Stripped] <;> decide
+
+theorem closeTier_close : ¬ NoClose closeTier.es := by
+  intro h
+  exact absurd (h ⟨10000000000, 10000000005, "x"⟩ (by simp [closeTier]) ⟨10000000005, 10000000010, "x"⟩
+    (by simp [closeTier]) (by decide)) (by decide)
+
+example : ∃ t', closeTier.eraseRegion 10000000005 10000000010 .truncate false = .ok t' ∧
+    IsErased 10000000005 10000000010 .truncate closeTier t' :=
+  erase_noshrink closeTier closeTier_wf _ _ (by decide) .truncate (by decide)
+
+#guard (closeTier.eraseRegion 10000000005 10000000010 .truncate false).toOption.map (·.es) ==
+  some [⟨0, 10000000000, "a"⟩, ⟨10000000000, 10000000005, "x"⟩, ⟨10000000010, 20000000000, "b"⟩]
 
 #guard (exTier.eraseRegion 20 85 .truncate true).toOption.map (fun t => (t.es, t.lo, t.hi)) ==
   some ([⟨10, 20, "a"⟩, ⟨20, 25, "c"⟩], 0, 35)
